@@ -86,8 +86,9 @@ Definition rule_ok (s : sim) (src evl : Z) (tt : ttype) (p : Z) : Prop :=
     | None => False
     end
   else
-    (* a named unit: exactly that unit, alive, of the right class *)
-    p = evl /\ is_alive s p = true /\
+    (* a named unit: exactly that unit, alive, still on the field (not removed by a death check),
+       of the right class *)
+    p = evl /\ is_alive s p = true /\ In p (chars s ++ enemies s) /\
     match tt with
     | TAllies => is_char s p = true
     | TEnemies => is_enemy s p = true
@@ -125,7 +126,10 @@ Proof.
            subst. split; [exact (argmin_in (hp_ratio s) (y :: r) x)|]. split; [congruence|]. split; [congruence|].
            intros _ K. exact (minimal_of_keys (hp_ratio s) x (y :: r) K).
   - destruct (get_unit (units s) evl) as [u|] eqn:EU; [|discriminate].
-    destruct (negb (is_alive s evl)) eqn:EA; [discriminate|]. apply negb_false_iff in EA.
+    destruct (negb (is_alive s evl) || negb (existsb (Z.eqb evl) (chars s ++ enemies s))) eqn:EA0; [discriminate|].
+    apply orb_false_iff in EA0. destruct EA0 as [EA EF]. apply negb_false_iff in EA. apply negb_false_iff in EF.
+    assert (HF : In evl (chars s ++ enemies s)).
+    { apply existsb_exists in EF. destruct EF as (x & Hx & Ex). apply Z.eqb_eq in Ex. subst x. exact Hx. }
     destruct tt; try discriminate.
     + destruct (uchar u) eqn:EC; [|discriminate]. intros H; inversion H; subst.
       unfold is_char. rewrite EU. auto.
